@@ -86,7 +86,17 @@ def shape(t, depth=2):
     s = sym.show(t, 5 - depth)
     s = re.sub(r"@\d+", "", s)
     s = re.sub(r"_\d+", "_", s)
-    return s[:90]
+    return norm_shape(s)[:90]
+
+
+def norm_shape(s):
+    """`Try>::branch(X) as Continue.0`, `X as Some.0`, `X as Ok.0` all denote the success payload of X: written `X?`"""
+    prev = None
+    while prev != s:
+        prev = s
+        s = re.sub(r"Try>::branch\(((?:[^()]|\([^()]*\))*)\) as Continue\.0", r"\1?", s)
+    s = s.replace(" as Some.0", "?").replace(" as Ok.0", "?")
+    return s
 
 
 # ------------------------------------------------------------------ discharge arguments
@@ -139,6 +149,8 @@ def search_origin(t):
             return (base_slice(inner[3][0]), 0)
     if t[0] == "call" and name_is(t[2], "name_len", "len"):
         return (base_slice(t[3][0]), 1)  # <= len
+    if t[0] == "call" and name_is(t[2], "count") and call_is(strip_wrappers(t[3][0]), "take_while", "filter", "skip_while"):
+        return (base_slice(strip_wrappers(t[3][0])[3][0]), 1)  # number of items of an iterator over the slice: <= len
     if t[0] == "call" and name_is(t[2], "unwrap_or", "map_or") and len(t[3]) >= 2:
         a = search_origin(("pl", t[3][0], (("d", 1, "Some"), ("f", 0, "0", ""))))
         return a if a is None else (a[0], a[1] + (1 if name_is(t[2], "map_or") else 0))
@@ -403,8 +415,8 @@ READER_EXEMPT = {
     "async_tokio::read_until_close_async{c0}|assert:Overflow:Sub|(*_.0).state.offset - 1": "called only in state InsideMarkup, entered after read_text consumed the '<' (offset >= 1): C03 R2 transition relation",
     "Reader::read_until_close|assert:Overflow:Sub|self.state.offset - 1": "called only in state InsideMarkup, entered after read_text consumed the '<' (offset >= 1): C03 R2 transition relation",
     "Reader::buffer_position|assert:Overflow:Sub|self.state.offset - 1": "only in state InsideMarkup, i.e. after the '<' was consumed (offset >= 1)",
-    "slice_reader::read_text|assert:Overflow:Sub|Try>::branch(slice_reader::read_to_end(..)) as Continue.0.end - Try>::branch": "span.start is taken before the loop and span.end before a later read; positions never decrease (C03 R4)",
-    "slice_reader::read_text|index-range|index(&(*self.reader), Range::Range(0, ((Try>::branch(..) as Continue.0.end Sub": "the span was measured on this very slice starting at its first byte (C12 R3)",
+    "slice_reader::read_text|assert:Overflow:Sub|slice_reader::read_to_end(..)?.end - slice_reader::read_to_end(..)?.start": "span.start is taken before the loop and span.end before a later read; positions never decrease (C03 R4)",
+    "slice_reader::read_text|index-range|index(&(*self.reader), Range::Range(0, (": "the span was measured on this very slice starting at its first byte (C12 R3)",
     "slice_reader::detect_encoding|index-range|index(&self, RangeFrom::RangeFrom(encoding::detect_encoding(..) as Some.0.1))": "the returned BOM length is the length of the prefix that was matched on this slice (C17 R3)",
     "slice_reader::read_text|index-range|index(&self, RangeFrom::RangeFrom(1))": "arm Some(0): memchr found '<' at index 0, so len >= 1",
     "slice_reader::read_bang_element|assert:BoundsCheck|&self[0]": "argument of a debug_assert: called only after peek_one() returned Some(b'!') (C01 R1 dispatch)",
@@ -477,6 +489,22 @@ def site_key(s):
     return "%s|%s|%s" % (fn, s.kind, s.descr or "")
 
 
+def _wild(pat):
+    """An elided `..` in a shape stands for whatever the printer cut there."""
+    fn, kind, sh = (pat.split("|", 2) + ["", ""])[:3]
+    return re.escape(fn) + r"\|" + re.escape(kind) + r"\|" + ".*?".join(re.escape(x) for x in sh.split(".."))
+
+
+def key_matches(ek, key):
+    """Exemption keys are `function|kind|operand shape` (shape possibly truncated): same function, same kind, and the
+    shapes agree wherever neither side was elided by the printer."""
+    if key.startswith(ek):
+        return True
+    if ek.split("|")[:2] != key.split("|")[:2]:
+        return False
+    return re.match(_wild(ek), key) is not None or (".." in key.split("|", 2)[-1] and re.match(_wild(key[: max(len(ek), 40)]), ek) is not None)
+
+
 def audit(ctx, rule, prefixes, exempt, floor, exclude=()):
     for cfg, F in ctx.facts.items():
         total = 0
@@ -497,7 +525,7 @@ def audit(ctx, rule, prefixes, exempt, floor, exclude=()):
                 k2 = "%s|%s" % (key.split("|")[0], key.split("|")[1])
                 hit = None
                 for ek, reason in exempt.items():
-                    if key.startswith(ek):
+                    if key_matches(norm_shape(ek), key):
                         hit = (ek, reason)
                         break
                 if hit:
